@@ -116,7 +116,7 @@ class Target:
         if t.variant == "Spill":
             k = t.fields["0"].fields["0"]
             _, outs = backend.fold(self.ctx, self.crate + "::config::stack_offset", [t.fields["0"]])
-            off = outs[0].result.fields["val"]
+            off = interp.sole_int(outs[0].result)
             return ("mem", ("sp0", off))
         return ("reg", self.names.get(repr(t), repr(t)))
 
@@ -128,7 +128,7 @@ class Target:
             return None
         v = interp.parse_repr(c["repr"], c["ty"], self.ctx.fx, crate=self.crate)
         _, outs = backend.fold(self.ctx, self.crate + "::config::stack_offset", [v])
-        return ("sp0", outs[0].result.fields["val"])
+        return ("sp0", interp.sole_int(outs[0].result))
 
 
 def _read_loc(m, loc):
@@ -406,7 +406,7 @@ def rule_isel(b):
         for val in imm_values:
             outs = backend.fold(ctx, ck[0], [val])[1]
             r = outs[0].result if len(outs) == 1 else None
-            got = r.fields.get("val") if isinstance(r, Adt) else r
+            got = interp.sole_int(r)
             conv[val] = r
             if not isinstance(got, int) or isinstance(got, bool) or got != val:
                 conv_bad.append((val, got))
